@@ -84,6 +84,13 @@ fn main() {
             let prop = v["property"].as_str().unwrap_or("").to_string();
             let mut ctx = Ctx::new(&prop, Tier::Quick, v["seed"].as_u64().unwrap_or(1));
             ctx.replay_mode = true;
+            // re-create the reporting thread's history first (see fw::hostile_history)
+            fw::HISTORY_OFF.store(true, std::sync::atomic::Ordering::Relaxed);
+            if let Some(h) = v["thread_history"].as_array() {
+                for i in h.iter().filter_map(|x| x.as_u64()) {
+                    fw::run_history_program(i as usize);
+                }
+            }
             let code = props::replay(&ctx, &v);
             std::process::exit(code);
         }
